@@ -144,12 +144,17 @@ def check_heading_slug_func(
         try:
             module_path, function_name = value.rsplit(".", 1)
             mod = import_module(module_path)
-            value = getattr(mod, function_name)
-        except ImportError as exc:
+            func = getattr(mod, function_name)
+        except (ImportError, AttributeError, ValueError) as exc:
+            # (no such module, no such attribute in it, or not a dotted path at all)
             raise TypeError(
                 f"'{field.name}' could not be loaded from string: {value!r}"
             ) from exc
-        setattr(inst, field.name, value)
+        if not callable(func):
+            raise TypeError(f"'{field.name}' is not callable: {func!r}")
+        # only a valid value is stored on the instance
+        setattr(inst, field.name, func)
+        return
     if not callable(value):
         raise TypeError(f"'{field.name}' is not callable: {value!r}")
 
